@@ -693,7 +693,7 @@ def run_c06(prop, tier, seed):
     # validation of the native oracle (not deciding): a sample of unsat programs must render as expected
     val = 0
     rnd = random.Random(seed + 6)
-    for p in rnd.sample(fam, min(12, len(fam))):
+    for p in fam:
         o = run_tool('render', [dict(src=p['src'], ctx=ctx, templates={'m': G.MODULE_SRC})])[0]
         val += 1
         if not ('ok' in o and p['expected'] in o['ok']) and not ev['violations']:
